@@ -104,7 +104,8 @@ RULE = ("scenario = 1-6 stations with non-sorted ids, mixed EVSE classes, voltag
         "state-dependent keys of LLF / LRPT drift past each other: DISTINCT true keys less than one period apart "
         "occur in most of these runs (features keys:within_1 / keys:within_0.1); on the targeted streams (tight / "
         "threshold <=4, contested <=3 stations) EVERY registration order is run and compared per station id; 35% "
-        "of the other sorted cases use uninterrupted_charging. TRUE sort keys: the wrapped algorithm records arrival, "
+        "of the other sorted cases use uninterrupted_charging; corpus: a two-feeder site under LLF and LRPT whose "
+        "real-valued keys come within a tenth of a period of each other. TRUE sort keys: the wrapped algorithm records arrival, "
         "estimated departure and remaining demand of every active session per invocation; the oracle computes each "
         "order's key from them and the scenario (voltage, maximum rate, period), never through the implementation's "
         "key functions, and abstains from the station relation only when two sessions that can still receive "
@@ -545,10 +546,11 @@ def corpus():
                 "exact": True, "ties": False})
     # a site with two feeders under a common limit, every sort order: arrivals, departures and the real-valued
     # laxities / remaining times are pairwise distinct but close (keys of cars that wait drift past the others less
-    # than one period apart); registered in a non-alphabetical order, stations at different voltages
+    # than one period apart); the feeders make the stations non-interchangeable; the permuted runs register them
+    # against the key order
     cc = {"t": "finite", "rates": [8, 16, 24, 32]}
     site = {"stations": [{"id": i, "kind": dict(cc), "V": v, "phase": 0}
-                         for i, v in (("N-03", 208), ("N-01", 208), ("N-04", 240), ("N-02", 208))],
+                         for i, v in (("N-01", 208), ("N-02", 208), ("N-03", 208), ("N-04", 208))],
             "constraints": [{"name": "north", "coeffs": [["N-01", 1], ["N-02", 1]], "limit": 32.0},
                             {"name": "south", "coeffs": [["N-03", 1], ["N-04", 1]], "limit": 40.0},
                             {"name": "site", "coeffs": [["N-01", 1], ["N-02", 1], ["N-03", 1], ["N-04", 1]], "limit": 64.0}],
@@ -557,7 +559,7 @@ def corpus():
                          for n, s_, a_, d_, q in (("a", "N-01", 0, 41, 10.0), ("b", "N-02", 1, 40, 10.31), ("c", "N-03", 2, 37, 7.13),
                                                   ("d", "N-04", 3, 45, 9.47), ("e", "N-02", 46, 70, 5.21), ("f", "N-01", 47, 66, 4.57))],
             "recomputes": [], "period": 5, "max_recompute": 1, "noise": [0.0]}
-    for algo, perm in (("llf", [1, 3, 0, 2]), ("lrpt", [3, 2, 1, 0]), ("lcfs", [2, 0, 3, 1]), ("rr:llf", [1, 0, 3, 2])):
+    for algo, perm in (("llf", [1, 0, 3, 2]), ("lrpt", [3, 2, 1, 0])):
         sc4 = copy.deepcopy(site)
         sc4["sched"] = {"type": algo}
         out.append({"sc": sc4, "var": {"stations": perm, "constraints": [2, 0, 1], "sessions": [5, 4, 3, 2, 1, 0], "recomputes": [], "shift": 7},
